@@ -15,10 +15,11 @@ open Tcell.TParm
 /-- `strings.Index(s, "$<")`: the bytes before the first `$<` and the bytes after it -/
 def findMarker : Bytes → Option (Bytes × Bytes)
   | [] => none
-  | 36 :: 60 :: r => some ([], r)
-  | b :: r => match findMarker r with
-    | some (pre, post) => some (b :: pre, post)
-    | none => none
+  | b :: r =>
+    if b == 36 && r.head? == some 60 then some ([], r.tail)
+    else match findMarker r with
+      | some (pre, post) => some (b :: pre, post)
+      | none => none
 
 /-- `strings.Index(s, ">")`: before / after the first `>` -/
 def findGt : Bytes → Option (Bytes × Bytes)
